@@ -136,8 +136,24 @@ pub fn replay_main(path: &str, verbose: bool) -> i32 {
             1,
             Duration::from_secs(if key.starts_with("hang") { 60 } else { 600 }),
         );
-        let o = &outs[0];
-        let died = !o.status_ok;
+        let mut o = &outs[0];
+        let mut died = !o.status_ok;
+        // a death caused by memory corruption may depend on the address space layout: try again
+        let mut more = Vec::new();
+        for _ in 0..3 {
+            if died {
+                break;
+            }
+            more = crate::orch::run_children(
+                vec![("inner".into(), vec!["replay-inner".into(), path.to_string()])],
+                1,
+                Duration::from_secs(if key.starts_with("hang") { 60 } else { 600 }),
+            );
+            died = !more[0].status_ok;
+        }
+        if died && !more.is_empty() {
+            o = &more[0];
+        }
         println!("{}", json!({"type": "replay", "reproduced": died, "class": class, "key": key, "status": o.status_text}));
         if died {
             println!("VIOLATION property={} replay={}", property, path);
@@ -336,6 +352,43 @@ pub fn shrink_eval(sp: &Value, class: &str, key: &str) -> Value {
             break;
         }
     }
+    // then statements inside blocks (never the last statement of a block: it is the block's value)
+    let mut guard = 0;
+    loop {
+        guard += 1;
+        if guard > 200 || !b.ok() {
+            break;
+        }
+        let text = cur["program"].as_str().unwrap_or("").to_string();
+        let spans = inner_statement_spans(&text);
+        let mut removed = false;
+        for (st, en) in spans {
+            if !b.ok() {
+                break;
+            }
+            let mut cand = String::new();
+            cand.push_str(&text[..st]);
+            cand.push_str(&text[en..]);
+            let cand_lines: Vec<String> = cand.lines().map(|s| s.to_string()).collect();
+            let cand_lines = fix_epilogue(&cand_lines);
+            let csp = with_program(&cur, &cand_lines);
+            let hit = if cur["plan"]["crash_at"].is_null() && !has_points(&cur) {
+                if reproduces(&csp, class, key).is_some() { Some(csp) } else { None }
+            } else if has_points(&cur) && cur["plan"]["crash_at"].is_null() {
+                refit_points(&csp, class, key, &mut b)
+            } else {
+                refit_crash(&csp, class, key, &mut b)
+            };
+            if let Some(h) = hit {
+                cur = h;
+                removed = true;
+                break;
+            }
+        }
+        if !removed {
+            break;
+        }
+    }
     // earliest crash point
     if let Some(k) = cur["plan"]["crash_at"].as_u64() {
         for k2 in 0..k {
@@ -351,6 +404,61 @@ pub fn shrink_eval(sp: &Value, class: &str, key: &str) -> Value {
         }
     }
     cur
+}
+
+/// Byte spans of statements that sit inside braces and are not the last statement of their block.
+fn inner_statement_spans(text: &str) -> Vec<(usize, usize)> {
+    let bytes = text.as_bytes();
+    let mut spans: Vec<(usize, usize, usize)> = Vec::new(); // (start, end, depth)
+    let mut starts: Vec<usize> = vec![0];
+    let mut in_str = false;
+    let mut esc = false;
+    let mut i = 0;
+    while i < bytes.len() {
+        let c = bytes[i];
+        if in_str {
+            if esc {
+                esc = false;
+            } else if c == b'\\' {
+                esc = true;
+            } else if c == b'"' {
+                in_str = false;
+            }
+        } else {
+            match c {
+                b'"' => in_str = true,
+                b'{' => starts.push(i + 1),
+                b'}' => {
+                    if starts.len() > 1 {
+                        starts.pop();
+                    }
+                }
+                b';' => {
+                    let d = starts.len() - 1;
+                    let st = starts[d];
+                    if d > 0 {
+                        spans.push((st, i + 1, d));
+                    }
+                    starts[d] = i + 1;
+                }
+                _ => {}
+            }
+        }
+        i += 1;
+    }
+    // drop the last statement of every block: a statement is last if only whitespace follows up to `}`
+    let mut out: Vec<(usize, usize)> = Vec::new();
+    for (st, en, _) in &spans {
+        let rest = &text[*en..];
+        let next = rest.trim_start();
+        if next.starts_with('}') {
+            continue;
+        }
+        out.push((*st, *en));
+    }
+    // larger spans first
+    out.sort_by(|a, b| (b.1 - b.0).cmp(&(a.1 - a.0)));
+    out
 }
 
 fn has_points(sp: &Value) -> bool {
